@@ -32,13 +32,13 @@ func init() {
 	register(&PropertyDef{
 		ID:          "C12",
 		Title:       "Invitations are self-authenticating; replication descriptors cannot read",
-		Explanation: "Decides, from the type-checked SSA of /repo: (D1) by finite-domain abstract evaluation of MetadataStore.GroupJoin, one scenario per group type (each enum value and one undeclared value), signature verdict and key-parse verdict: the call that appends the AccountGroupJoined event is reachable, or a nil error is returned, only when Verify(key parsed from the group's PublicKey, Secret, SecretSig) accepted and the type is multi-member; and every module caller of GroupJoin returns an error on every path once GroupJoin has refused; (D6) in every module caller of GroupJoin, a call that receives the same group and may write to a datastore/keystore (effect summaries) or open an orbit-db store is not executable on any path on which GroupJoin has not accepted the group (evaluated with GroupJoin refusing: before the validating call, without it, after its failure); (D7) in every module caller of GroupJoin that receives a group (a group parameter or a group field of a request message), evaluated once per group type: the group object handed to GroupJoin has the GroupType, PublicKey, Secret and SecretSig of the group received (the same object, or a copy whose fields all come from it) — a field known to hold something else (a constant type, another field, an in-place assignment) is reported, a group built by library code is opaque and only noted; (D8) at every module call that returns the own member/device pair for a group (a result implementing OwnMemberDevice, a group parameter): nothing derived from the result (the pair, its keys, their raw bytes) is stored into a field of an object reachable from a parameter/receiver/captured variable, or into a package variable, unless the group argument is itself a field of that same object; objects under construction, map entries and locals are not reported (this is the write side of 'always under the keys derived for that group'; that every DevicePk/MemberPk field of an outgoing message is read from the right object is not decided); (D2) by a field-label dataflow over FilterGroupForReplication and the module functions it uses: the returned descriptor is neither the input nor a copy or serialisation of it, and no value stored into a field of it can be computed back to the raw Secret (the secret reaches it only through the one-way functions listed under trusted base); (D3) the access-controller manifest stored by DefaultOrbitDBOptions and the store name given to DetermineAddress depend on no field of the group other than PublicKey, SignPub and a one-way image of Secret, and the descriptor carries exactly those inputs (PublicKey copied, SignPub = signing public key); (D4) by abstract evaluation of the SecretStore implementation's GetOwnMemberDeviceForGroup per group type: for a multi-member group no key of the returned member/device pair is a keystore entry stored under a constant (account-wide) name; (D5) the secretbox.Open calls that open GroupEnvelope.Event and MessageEnvelope.MessageHeaders (and any other box keyed on a group parameter) take a key computed from the raw Secret, which by D2 the descriptor lacks. Not decided: unforgeability of Ed25519 and one-wayness of HKDF / public-key derivation (trusted); that the append itself succeeds; that message payload keys (chain keys) reach only members (C05); implicit (control-dependence) flows of the secret; writes into the input group (it is treated as immutable); a descriptor built by copying the whole group and clearing fields afterwards is reported although it could be correct (the dataflow is flow-insensitive); deferred closures are not interpreted by the evaluator (checked not to assign captured variables).",
+		Explanation: "Decides, from the type-checked SSA of /repo: (D1) by finite-domain abstract evaluation of MetadataStore.GroupJoin, one scenario per group type (each enum value and one undeclared value), signature verdict and key-parse verdict: the call that appends the AccountGroupJoined event is reachable, or a nil error is returned, only when Verify(key parsed from the group's PublicKey, Secret, SecretSig) accepted and the type is multi-member; and every module caller of GroupJoin returns an error on every path once GroupJoin has refused; (D6) in every module caller of GroupJoin, a call that receives the same group and may write to a datastore/keystore (effect summaries) or open an orbit-db store is not executable on any path on which GroupJoin has not accepted the group (evaluated with GroupJoin refusing: before the validating call, without it, after its failure); (D7) in every module caller of GroupJoin that receives a group (a group parameter or a group field of a request message), evaluated once per group type: the group object handed to GroupJoin has the GroupType, PublicKey, Secret and SecretSig of the group received (the same object, or a copy whose fields all come from it) — a field known to hold something else (a constant type, another field, an in-place assignment) is reported, a group built by library code is opaque and only noted; (D8) at every module call that returns the own member/device pair for a group (a result implementing OwnMemberDevice, a group parameter): nothing derived from the result (the pair, its keys, their raw bytes) is stored into a field of an object reachable from a parameter/receiver/captured variable, or into a package variable, unless the group argument is itself a field of that same object; objects under construction, map entries and locals are not reported (this is the write side of 'always under the keys derived for that group'; that every DevicePk/MemberPk field of an outgoing message is read from the right object is not decided); (D2) by a field-label dataflow over FilterGroupForReplication and the module functions it uses: the returned descriptor is neither the input nor a copy or serialisation of it, and no value stored into a field of it can be computed back to the raw Secret (the secret reaches it only through the one-way functions listed under trusted base); (D3) the access-controller manifest stored by DefaultOrbitDBOptions and the store name given to DetermineAddress depend on no field of the group other than PublicKey, SignPub and a one-way image of Secret, and the descriptor carries exactly those inputs (PublicKey copied, SignPub = signing public key); (D9) the log address of a store does not depend on which store was opened before: DefaultOrbitDBOptions is evaluated twice in a row on the same caller-owned options value (no access controller chosen by the caller) and the second result must carry the manifest computed by the second call; when it carries the first one (defaults filled into the caller's struct, 'only if nil') the rule follows the options parameter up the module call graph and reports every function that hands one options value to two store opens on one path — with no such caller the function is accepted with a note;  (D4) by abstract evaluation of the SecretStore implementation's GetOwnMemberDeviceForGroup per group type: for a multi-member group no key of the returned member/device pair is a keystore entry stored under a constant (account-wide) name; (D5) the secretbox.Open calls that open GroupEnvelope.Event and MessageEnvelope.MessageHeaders (and any other box keyed on a group parameter) take a key computed from the raw Secret, which by D2 the descriptor lacks. Not decided: unforgeability of Ed25519 and one-wayness of HKDF / public-key derivation (trusted); that the append itself succeeds; that message payload keys (chain keys) reach only members (C05); implicit (control-dependence) flows of the secret; writes into the input group (it is treated as immutable); a descriptor built by copying the whole group and clearing fields afterwards is reported although it could be correct (the dataflow is flow-insensitive); deferred closures are not interpreted by the evaluator (checked not to assign captured variables).",
 		Trusted: []string{"golang.org/x/tools go/packages+go/ssa (v0.29.0)", "go/types",
 			"libp2p crypto.PubKey.Verify / UnmarshalEd25519PublicKey semantics",
 			"one-way functions: crypto.PrivKey.GetPublic, ed25519.PrivateKey.Public, hkdf.New/Extract/Expand/Key, hmac.New, sha256/sha512/sha3/blake2b sums",
 			"keystore names are the identity of a key (go-ipfs-keystore Get/Put)"},
 		Assumptions: []string{"dependencies behave as documented; only module code is analysed", "label dataflow is flow-insensitive and ignores control dependence"},
-		Floors:      map[string]int{"D1": 5, "D2": 1, "D3": 4, "D4": 1, "D5": 2, "D6": 1, "D7": 1, "D8": 8},
+		Floors:      map[string]int{"D1": 5, "D2": 1, "D3": 4, "D4": 1, "D5": 2, "D6": 1, "D7": 1, "D8": 8, "D9": 1},
 		Run:         runC12,
 	})
 }
@@ -546,6 +546,7 @@ func runC12(c *Ctx) {
 	c12D6(c)
 	c12D7(c)
 	c12D8(c)
+	c12D9(c)
 	flow := newC12Flow(c.W)
 	c12D2D3(c, flow)
 	c12D4(c)
@@ -1410,6 +1411,245 @@ func c12D8(c *Ctx) {
 		c.undecided("D8", "GetOwnMemberDeviceForGroup", token.NoPos, "no call returning an OwnMemberDevice for a group found in the module")
 	}
 	c.count("own_identity_call_sites", nSites)
+}
+
+// ---- D9: the log address of a store does not depend on which store was opened before ----
+
+func c12IsCreateDBOptions(t types.Type) bool {
+	if p, ok := t.Underlying().(*types.Pointer); ok {
+		t = p.Elem()
+	}
+	nt, ok := types.Unalias(t).(*types.Named)
+	return ok && nt.Obj().Name() == "CreateDBOptions" && nt.Obj().Pkg() != nil && strings.HasPrefix(nt.Obj().Pkg().Path(), c12PkgOrbit)
+}
+
+func c12IsManifestParams(t types.Type) bool {
+	nt, ok := types.Unalias(t).(*types.Named)
+	return ok && nt.Obj().Name() == "ManifestParams" && nt.Obj().Pkg() != nil && strings.HasPrefix(nt.Obj().Pkg().Path(), c12PkgOrbit)
+}
+
+// c12Origins: the values v may be (through phis and conversions).
+func c12Origins(v ssa.Value, seen map[ssa.Value]bool, out *[]ssa.Value) {
+	if v == nil || seen[v] {
+		return
+	}
+	seen[v] = true
+	switch x := v.(type) {
+	case *ssa.Phi:
+		for _, e := range x.Edges {
+			c12Origins(e, seen, out)
+		}
+	case *ssa.ChangeType:
+		c12Origins(x.X, seen, out)
+	case *ssa.Const:
+	default:
+		*out = append(*out, v)
+	}
+}
+
+func c12D9(c *Ctx) {
+	w := c.W
+	opts := w.lookupFunc(pkgRoot, "DefaultOrbitDBOptions")
+	if opts == nil || opts.Blocks == nil {
+		c.undecided("D9", "DefaultOrbitDBOptions", token.NoPos, "exported function DefaultOrbitDBOptions not found")
+		return
+	}
+	on := fnName(opts)
+	oIdx := -1
+	for i, p := range opts.Params {
+		if _, isPtr := p.Type().Underlying().(*types.Pointer); isPtr && c12IsCreateDBOptions(p.Type()) {
+			oIdx = i
+		}
+	}
+	if oIdx < 0 || opts.Signature.Results().Len() < 1 || !c12IsCreateDBOptions(opts.Signature.Results().At(0).Type()) {
+		c.undecided("D9", on, opts.Pos(), "DefaultOrbitDBOptions no longer maps a *CreateDBOptions to a *CreateDBOptions")
+		return
+	}
+	c.analysed(opts)
+	oName := opts.Params[oIdx].Name()
+	var acType types.Type
+	if st, ok := types.Unalias(opts.Params[oIdx].Type().Underlying().(*types.Pointer).Elem()).Underlying().(*types.Struct); ok {
+		for i := 0; i < st.NumFields(); i++ {
+			if st.Field(i).Name() == "AccessController" {
+				acType = st.Field(i).Type()
+			}
+		}
+	}
+	if acType == nil {
+		c.undecided("D9", on, opts.Pos(), "CreateDBOptions has no AccessController field")
+		return
+	}
+	// the defaults are computed twice in a row for the same caller-owned options value (no
+	// access controller chosen by the caller): the second result must carry the manifest
+	// computed by the second call
+	manifests := 0
+	mentionsOptions := func(f *ssa.Function) bool {
+		sig := f.Signature
+		for i := 0; i < sig.Params().Len(); i++ {
+			if c12IsCreateDBOptions(sig.Params().At(i).Type()) {
+				return true
+			}
+		}
+		return false
+	}
+	cfg := EvalConfig{
+		MaxDepth: 6, MaxPaths: 20000, MaxVisits: 3,
+		Field: func(path string, t types.Type) (AVal, bool) {
+			if path == oName+".AccessController" {
+				return aNil{}, true
+			}
+			return nil, false
+		},
+		Inline: func(f *ssa.Function) bool { return inModule(f) && mentionsOptions(f) },
+		Call: func(_ *Evaluator, _ *pstate, k string, cc *ssa.CallCommon, _ []AVal) ([]AVal, bool) {
+			sig := cc.Signature()
+			if sig.Results().Len() >= 1 && c12IsManifestParams(sig.Results().At(0).Type()) {
+				manifests++
+				res := make([]AVal, sig.Results().Len())
+				res[0] = aNonNil{Tag: fmt.Sprintf("manifest#%d", manifests)}
+				if len(res) > 1 {
+					res[len(res)-1] = aNil{}
+				}
+				return res, true
+			}
+			if c12ErrKey(k) {
+				return []AVal{aNonNil{Tag: "error"}}, true
+			}
+			return nil, false
+		},
+	}
+	ev := &Evaluator{W: w, Cfg: cfg}
+	args := ev.SymbolicArgs(opts)
+	st0 := ev.st0
+	ev.st0 = nil
+	errIdx := errResultIndex(opts.Signature)
+	stale, fresh, unknown, second := 0, 0, 0, 0
+	trunc := ""
+	ev.call(opts, args, nil, 0, st0, func(res1 []AVal, st1 *pstate, kind, why string) {
+		if kind == "truncated" {
+			trunc = why
+		}
+		if kind != "return" || (errIdx >= 0 && errIdx < len(res1) && c12DefNonNil(res1[errIdx])) {
+			return
+		}
+		mark := manifests
+		ev.call(opts, args, nil, 0, st1, func(res2 []AVal, st2 *pstate, kind, why string) {
+			if kind == "truncated" {
+				trunc = why
+			}
+			if kind != "return" || (errIdx >= 0 && errIdx < len(res2) && c12DefNonNil(res2[errIdx])) {
+				return
+			}
+			second++
+			p, ok := res2[0].(aPtr)
+			if !ok {
+				unknown++
+				return
+			}
+			got := ev.load(st2, aPtr{ID: p.ID, Sym: p.Sym, Path: p.Path + ".AccessController"}, acType)
+			nn, ok := got.(aNonNil)
+			n := 0
+			if !ok || !strings.HasPrefix(nn.Tag, "manifest#") {
+				unknown++
+				return
+			}
+			fmt.Sscanf(nn.Tag, "manifest#%d", &n)
+			if n <= mark {
+				stale++
+			} else {
+				fresh++
+			}
+		})
+	})
+	construct := on + "+per-store-options"
+	switch {
+	case trunc != "":
+		c.undecided("D9", construct, opts.Pos(), "abstract evaluation truncated: %s", trunc)
+		return
+	case second == 0 || fresh+stale == 0:
+		c.undecided("D9", construct, opts.Pos(), "the access controller of the options returned by two successive calls could not be followed (%d second-call outcomes, %d opaque)", second, unknown)
+		return
+	case stale == 0:
+		c.ok("D9", construct, opts.Pos(), "called twice with the same options value, each call returns the manifest it computed itself (%d paths): the log address is a function of the group and the store type only", fresh)
+		return
+	}
+	// the function keeps per-store state in its caller's options: harmless only if no caller
+	// hands one options value to two store opens
+	type tp struct {
+		fn  *ssa.Function
+		idx int
+	}
+	tainted := map[tp]bool{{opts, oIdx}: true}
+	work := []tp{{opts, oIdx}}
+	cg := w.callGraph()
+	type use struct {
+		site ssa.CallInstruction
+		org  ssa.Value
+	}
+	uses := map[*ssa.Function][]use{}
+	for len(work) > 0 {
+		cur := work[0]
+		work = work[1:]
+		for _, cs := range cg.callers[cur.fn] {
+			cargs := cs.Instr.Common().Args
+			if cs.Instr.Common().IsInvoke() || cur.idx >= len(cargs) {
+				continue
+			}
+			var orgs []ssa.Value
+			c12Origins(cargs[cur.idx], map[ssa.Value]bool{}, &orgs)
+			for _, o := range orgs {
+				uses[cs.Caller] = append(uses[cs.Caller], use{cs.Instr, o})
+				if par, ok := o.(*ssa.Parameter); ok {
+					for j, pp := range cs.Caller.Params {
+						if pp == par && !tainted[tp{cs.Caller, j}] {
+							tainted[tp{cs.Caller, j}] = true
+							work = append(work, tp{cs.Caller, j})
+						}
+					}
+				}
+			}
+		}
+	}
+	var sharers []*ssa.Function
+	for fn := range uses {
+		sharers = append(sharers, fn)
+	}
+	sort.Slice(sharers, func(i, j int) bool { return sharers[i].String() < sharers[j].String() })
+	nShared := 0
+	for _, fn := range sharers {
+		us := uses[fn]
+		var pairs []string
+		for i := 0; i < len(us); i++ {
+			for j := i + 1; j < len(us); j++ {
+				if us[i].org != us[j].org || us[i].site == us[j].site {
+					continue
+				}
+				a, b := us[i].site.(ssa.Instruction), us[j].site.(ssa.Instruction)
+				switch {
+				case instrReaches(a, b):
+					pairs = append(pairs, fmt.Sprintf("%s then %s", c.pos(posOf(a)), c.pos(posOf(b))))
+				case instrReaches(b, a):
+					pairs = append(pairs, fmt.Sprintf("%s then %s", c.pos(posOf(b)), c.pos(posOf(a))))
+				}
+			}
+		}
+		if len(pairs) == 0 {
+			continue
+		}
+		nShared++
+		c.analysed(fn)
+		sort.Strings(pairs)
+		if len(pairs) > 3 {
+			pairs = pairs[:3]
+		}
+		c.fail("D9", fnName(fn)+"+shared-store-options", fn.Pos(), "one options value is handed to two store opens (%s) while %s keeps the access-controller manifest it computed in the options it was given: the second store is opened with the first store's manifest, so its log address differs from the one the replication descriptor (and a restore) computes for the same group", strings.Join(pairs, "; "), on)
+	}
+	if nShared > 0 {
+		c.fail("D9", construct, opts.Pos(), "%s fills the per-store defaults into its caller's options instead of a value of its own: called twice with the same options it returns the FIRST call's access-controller manifest (%d of %d paths), and %d caller(s) reuse one options value for two stores", on, stale, stale+fresh, nShared)
+	} else {
+		c.note("D9: %s returns the first call's manifest when called twice with the same options value, but no module caller hands one options value to two store opens", on)
+		c.ok("D9", construct, opts.Pos(), "%s keeps state in its caller's options, but every caller passes a distinct options value per store", on)
+	}
 }
 
 // ---- D2 / D3: descriptor and log address inputs ----------------------------
